@@ -133,8 +133,11 @@ func runC27(p *core.Prog, r *core.Report, tier string) {
 	}
 
 	// ---- (2) (*writer).Write
-	isStatus := func(info *types.Info) func(ast.Expr) bool {
-		return func(e ast.Expr) bool { return core.FieldOf(info, e) == statusF }
+	// res.StatusCode, also through a single-definition temporary (code := res.StatusCode)
+	isStatus := func(info *types.Info, root ast.Node) func(ast.Expr) bool {
+		return func(e ast.Expr) bool {
+			return core.FieldOf(info, e) == statusF || core.FieldOf(info, core.ResolveLocal(info, root, e)) == statusF
+		}
 	}
 	if f := r.Need(p, replRWPkg, "writer.Write"); f != nil {
 		const rule = "success-means-accepted"
@@ -149,7 +152,7 @@ func runC27(p *core.Prog, r *core.Report, tier string) {
 		}
 		if r.Check(pwErr != nil && core.AssignedFrom(info, f.Decl.Body, pwErr, post, 1).OnlyFrom(), rule, f.String(), "postWriteErr", f.Pos(), "one variable holds the error of PostWrite and nothing else") {
 			accepted := g.NilEdgeObj(pwErr, true)
-			is400 := g.EqConstEdge(isStatus(info), badReq)
+			is400 := g.EqConstEdge(isStatus(info, f.Decl.Body), badReq)
 			drop := func(e *core.Edge) bool {
 				for _, ft := range core.EdgeFacts(e) {
 					if ft.Truth && core.FieldOf(info, ft.Cond) == dropF {
@@ -195,7 +198,7 @@ func runC27(p *core.Prog, r *core.Report, tier string) {
 			r.Check(len(c.Args) == 4 && data != nil && core.ObjOf(info, c.Args[2]) == types.Object(data), rule, f.String(), "PostWrite-data", p.Pos(c.Pos()), "the data parameter is what is posted")
 		}
 		// Retry-After only for 429
-		is429 := g.EqConstEdge(isStatus(info), tooMany)
+		is429 := g.EqConstEdge(isStatus(info, f.Decl.Body), tooMany)
 		hdr := g.Select(g.Calling(call("replications/remotewrite.writer.waitTimeFromHeader")))
 		if r.Check(len(hdr) >= 1, "retry-after", f.String(), "waitTimeFromHeader:absent", f.Pos(), "Retry-After is consulted") {
 			for _, h := range hdr {
